@@ -175,7 +175,10 @@ partial def obsVal (S : Schema) : Val → String
       | some f, some v =>
         let setBit := if isSet f v then "1" else "0"
         if hidden f i cur then s!" [{setBit} AE]"
-        else s!" [{setBit} {obsVal S (materialize S f v)}]"
+        else
+          match v, f.defKind with
+          | .ph, .msg _ => s!" [{setBit} fresh]"     -- an unset sub-message: not expanded (recursive types)
+          | _, _ => s!" [{setBit} {obsVal S (materialize S f v)}]"
       | _, _ => " [?]"
     s!"m {c} {if ow then 1 else 0} {cur.length}" ++ String.join (cur.map fun x => " " ++ showOptNat x)
       ++ s!" {sl.length}" ++ String.join items
